@@ -356,7 +356,14 @@ PROPS = {
             'MF.Props.C05.lexed_tokensOK',
             'MF.Props.C05.span_facts',
             'MF.Props.C05.span_nested',
-            'MF.Props.C05.span_ordered'],
+            'MF.Props.C05.span_ordered',
+            'MF.Props.C05.group_span',
+            'MF.Props.C05.order_item_span',
+            'MF.Props.C05.order_span',
+            'MF.Props.C05.items_loop_span',
+            'MF.Props.C05.select_span',
+            'MF.Props.C05.statement_span',
+            'MF.Props.C05.query_positions_partial'],
         "channels": ['TREE', 'TYPE', 'EXPRPOS', 'QUERY', 'DML'],
         "pred": True,
         "level": 'proof',
